@@ -212,3 +212,18 @@ def c13e(ctx):
     rets = g.find_stmts(lambda s: isinstance(s, ast.Return) and unparse(s.value) == 'cached')
     ok = len(c) == 1 and bool(rets)
     ctx.check(ok, 'TileManager.is_cached:starts-from-backend', 'the answer starts from cache.is_cached() and is only ever lowered by the staleness test', fn)
+
+
+@rule('C13.f', floor=1)
+def c13f(ctx):
+    """the age of a tile is the age of its own directory entry: single-colour tiles are links to a shared file that is
+    written once, so the metadata must come from lstat (not stat, which follows the link)"""
+    fm = ctx.fn('mapproxy/cache/file.py:FileCache.load_tile_metadata')
+    st = [x for x in fm.walk() if is_call(x, 'os.stat', 'os.lstat', 'os.path.getmtime')]
+    ok = bool(st)
+    for x in st:
+        nofollow = const_value(keyword(x, 'follow_symlinks')) is False
+        ok = ok and (is_call(x, 'os.lstat') or (is_call(x, 'os.stat') and nofollow))
+    ctx.check(ok, 'FileCache.load_tile_metadata:lstat', 'tile timestamp and size are taken with lstat (the link itself, not the shared single-colour file)', fm,
+              fail='tile metadata is read through the symlink: a single-colour tile refreshed after the threshold keeps the old timestamp of the '
+                   'shared file and is fetched again on every request')
